@@ -75,6 +75,7 @@ pub fn osstring_lit(b: &'static [u8]) -> (r: OsString) ensures r@ == b@ { unimpl
 pub fn collect_components<P: AsRefPath>(path: &P) -> (r: VecDeque<OsString>)
     ensures r@.len() == split(path.pview()).len(),
         forall|i: int| 0 <= i < r@.len() ==> #[trigger] r@[i]@ == split(path.pview())[i],
+        forall|i: int| 0 <= i < r@.len() ==> no_slash(#[trigger] r@[i]@),
 { unimplemented!() }
 /// R6 (join_remaining): `Itertools::intersperse(once(&part).chain(rest.iter()).map(as_os_str), "/").collect::<OsString>().into()`
 #[verifier::external_body]
@@ -121,5 +122,5 @@ pub proof fn axiom_a3_procfs_witness(root: int, cur: int, rp: Seq<u8>, cp: Seq<u
 //@item src/utils/path.rs :: struct RawComponents | sub.derive_debug
 impl PathBuf {
     #[verifier::external_body]
-    pub fn raw_components(&self) -> (r: RawComponents<'_>) { unimplemented!() }
+    pub(crate) fn raw_components(&self) -> (r: RawComponents<'_>) ensures r.inner matches Some(p) && p@ == self@ { unimplemented!() }
 }
